@@ -576,7 +576,7 @@ static void explore_tree(const char *code, uint64_t caseno, char flavor, vrng *r
 typedef struct { binson_parser *p; binson_writer *w; bool ok; int depth; } tctx;
 static void transcribe(tctx *t, bool in_obj)
 {
-    if (++t->depth > 700) { t->ok = false; return; }
+    if (++t->depth > 6000) { fprintf(stderr, "HARNESS: transcriber recursion guard\n"); exit(2); }
     while (t->ok && binson_parser_next(t->p)) {
         if (in_obj) {
             bbuf *nm = binson_parser_get_name(t->p);
